@@ -37,7 +37,9 @@ def spec_v1():
            E(b"xb", "file", content=b"xb", xattrs={b"user.long": b"V" * 300, b"trusted.t": b"2"}),
            # tails of 3000 bytes: each needs a fragment block of its own (block size 4096)
            E(b"ta", "file", content=content_pattern("ta", 2 * B + 3000)), E(b"tb", "file", content=content_pattern("tb", 3000)),
-           E(b"tc", "file", content=content_pattern("tc", B + 3000))]
+           E(b"tc", "file", content=content_pattern("tc", B + 3000)),
+           # compressible blocks (the decompressor is involved in every block of this file)
+           E(b"text", "file", content=b"".join(b"text-line-%05d compressible compressible\n" % i for i in range(400))[:2 * B + 700])]
     return sp
 
 
@@ -77,6 +79,10 @@ def derive_ops(img_bytes):
     ops.append("path %d no/such/entry" % t[b""]["ref"])
     ops.append("read %d 0 %d" % (fmulti["ref"], B))
     ops.append("read %d %d 10" % (fmulti["ref"], B))
+    # ranges strictly inside the first and inside the second block of a file whose blocks are compressed (a read that starts on a block boundary may touch the block before it)
+    fcomp = next((t[p] for p in files if len(t[p]["layout"]["blocks"]) >= 2 and all(b[2] for b in t[p]["layout"]["blocks"][:2])), fmulti)
+    ops.append("read %d 64 100" % fcomp["ref"])
+    ops.append("read %d %d 100" % (fcomp["ref"], B + 64))
     ops.append("read %d %d 10" % (fmulti["ref"], max(0, fmulti["size"] - 3)))
     ops.append("read %d 0 100" % ffrag["ref"])
     ops.append("block %d 1" % fmulti["ref"])
@@ -206,6 +212,11 @@ def main():
             if blk_file is not None:
                 b0 = next(b for b in blk_file["layout"]["blocks"] if b[1] > 20 and b[2])
                 targets.append(("data-block", b0[0] + 6))
+            # the SECOND block of the multi-block file the read operations address (its first block stays readable)
+            vfiles = sorted((p_ for p_, n_ in vim.tree.items() if n_["type"] == "file"), key=lambda p_: -vim.tree[p_]["size"])
+            fm = next((vim.tree[p_] for p_ in vfiles if len(vim.tree[p_]["layout"]["blocks"]) >= 2 and all(b[2] for b in vim.tree[p_]["layout"]["blocks"][:2])), None)
+            if fm is not None and fm["layout"]["blocks"][1][1] > 20:
+                targets.append(("second-data-block", fm["layout"]["blocks"][1][0] + 6))
             ipos = sorted(vim.meta_blocks.get("inode", ()))
             if len(ipos) > 1:
                 targets.append(("second-inode-block", ipos[1] + 2 + 6))
